@@ -35,6 +35,8 @@ class ByteDomain(exchange.ExchangeDomain):
         self.subscript_may_raise = False
         self.unpack_may_raise = False
         self.is_reader = is_reader
+        mod = prog.module(exchange.READERS_BASE)
+        self.byte_sources = {n for n in readers if mod.functions[n].param("buf") is None}
         self.kills = []
         self.sources = 0
 
@@ -94,7 +96,8 @@ class ByteDomain(exchange.ExchangeDomain):
         return TOP, False
 
     def call(self, node, fval, args, kwargs, state):
-        if isinstance(node.func, ast.Name) and node.func.id == "_recv":
+        if isinstance(node.func, ast.Name) and node.func.id in self.byte_sources:
+            # the recv helper, or a wrapper of it that takes no buffer (e.g. recv + hang-up test): newly received bytes
             self.sources += 1
             return [("ok", FRESH, state)]
         if self.is_reader_call(node, fval):
@@ -236,14 +239,15 @@ def run(chk):
     # ------------------------------------------------------------------ R3 segment-size independence
     r3 = chk.rule("C03.R3", "no decision depends on the receive size: RECV_SIZE is only an argument of the recv helper; fresh chunks are only tested for emptiness")
     n_use = 0
+    byte_sources = {n for n in readers if mod.functions[n].param("buf") is None}
     for f in prog.all_functions():
         for n in walk_no_nested(f.node):
             if isinstance(n, ast.Name) and n.id == "RECV_SIZE" and isinstance(n.ctx, ast.Load):
                 n_use += 1
                 p = getattr(n, "_parent", None)
-                ok = isinstance(p, ast.Call) and isinstance(p.func, ast.Name) and p.func.id in direct and n in p.args
+                ok = isinstance(p, ast.Call) and isinstance(p.func, ast.Name) and p.func.id in byte_sources and n in p.args
                 r3.expect(ok, "%s passes RECV_SIZE to the recv helper" % f.qualname, "%s:RECV_SIZE-in-logic" % f.qualname, "%s uses RECV_SIZE in `%s`: parsing would depend on how the stream is cut into pieces" % (f.qualname, node_src(p)), fn=f, node=n)
-    r3.floor("uses of RECV_SIZE", n_use, 3)
+    r3.floor("uses of RECV_SIZE", n_use, 1)
     for f in reader_fns:
         for n in walk_no_nested(f.node):
             if isinstance(n, ast.Compare) and any(isinstance(x, ast.Call) and call_name(x) == "len" for x in ast.walk(n)) and any(isinstance(c, ast.Constant) and isinstance(c.value, int) and c.value > 8 for c in ast.walk(n)):
@@ -276,7 +280,7 @@ def run(chk):
                     problems.append((n, "`%s` replaces the searched buffer `%s` with new data instead of appending to it: only the newest piece is searched, so an end token that straddles two pieces is never found (and earlier bytes are searched no more)" % (node_src(n, 70), V)))
             if isinstance(n, ast.Tuple) and isinstance(getattr(n, "_parent", None), ast.Assign) and any(isinstance(e, ast.Name) and e.id == V and isinstance(e.ctx, ast.Store) for e in n.elts):
                 problems.append((n, "`%s` is re-bound by tuple assignment inside the receive loop" % V))
-        recvs = [n for n in ast.walk(loop) if isinstance(n, ast.Call) and isinstance(n.func, ast.Name) and n.func.id in direct]
+        recvs = [n for n in ast.walk(loop) if isinstance(n, ast.Call) and isinstance(n.func, ast.Name) and n.func.id in byte_sources]
         flows = False
         for n in ast.walk(loop):
             if isinstance(n, ast.AugAssign) and isinstance(n.op, ast.Add) and isinstance(n.target, ast.Name) and n.target.id == V:
